@@ -620,7 +620,7 @@ pub fn pool_groups(prop: &'static str, proj: Proj, q: bool, max_dev: usize) -> V
     p2.alphabet = TABLE_ALPHABET.to_vec();
     p2.extra_inputs = vec!["az9_!".into(), "zZ.9\u{10FFFF}a".into(), "aZz99.9!".into()];
     // the table lexers are expensive to compile: the quick tier keeps three of them
-    let tables: Vec<Spec> = if q { builtin_rules_family().into_iter().enumerate().filter(|(i, _)| [0usize, 3, 4].contains(i)).map(|(_, s)| s).collect() } else { builtin_rules_family() };
+    let tables: Vec<Spec> = if q { builtin_rules_family().into_iter().enumerate().filter(|(i, _)| [0usize, 2, 3].contains(i)).map(|(_, s)| s).collect() } else { builtin_rules_family() };
     vec![Group { plan: p1, specs: shape_pool(q) }, Group { plan: p2, specs: tables }]
 }
 
